@@ -1942,6 +1942,7 @@ impl TypeChecker {
         proof { lemma_prefix_refl(sp); reveal(push_frame); }
 //@   endghost
 //@   loop 1 binder it
+//@| for (con, span) in hoisted_cons.iter()
             invariant
                 self.copy_inv(old(self), seen@, ts0, sp, new_ty, old_ty), //# C02,C07 inner_copy.loop1.aux1
                 vstd::std_specs::btree::key_obeys_cmp_spec::<Constraint>(), //# C07 inner_copy.loop1.aux2
@@ -1954,14 +1955,17 @@ impl TypeChecker {
         proof { lemma_prefix_refl(sq); }
 //@   endghost
 //@   loop 2 binder it
+//@| for ty in tys.iter()
             invariant self.copy_inv(old(self), seen@, ts0, sq, new_ty, old_ty), ids_below(copied@, self.types@.len() as int), //# C02,C07 inner_copy.loop2.aux1
                 copied@.len() == it.index@, //# C03,C05 inner_copy.loop2.one_copy_per_element
 //@   endloop
 //@   loop 3 binder it
+//@| for ty in args.iter()
             invariant self.copy_inv(old(self), seen@, ts0, sq, new_ty, old_ty), ids_below(copied@, self.types@.len() as int), //# C02,C07 inner_copy.loop3.aux1
                 copied@.len() == it.index@, //# C03,C05 inner_copy.loop3.one_copy_per_element
 //@   endloop
 //@   loop 4 binder it
+//@| for (name, (span, ty)) in fields.iter()
             invariant self.copy_inv(old(self), seen@, ts0, sq, new_ty, old_ty), fields_in_range(copied, self.types@.len() as int), vstd::std_specs::btree::key_obeys_cmp_spec::<String>(), //# C02,C07 inner_copy.loop4.aux1
                 forall|j: int| 0 <= j < it.seq().len() ==> fields@.contains_pair(*(#[trigger] it.seq()[j]).0, *it.seq()[j].1), //# - inner_copy.loop4.aux2
 //@   endloop
@@ -1969,9 +1973,11 @@ impl TypeChecker {
             let ghost l5 = self.types@.len();
 //@   endghost
 //@   loop 5
+//@| for ty in args.iter()
             invariant self.copy_inv(old(self), seen@, ts0, sq, new_ty, old_ty), ids_below(copied@, self.types@.len() as int), self.types@.len() >= l5, //# C02,C07 inner_copy.loop5.aux1
 //@   endloop
 //@   loop 6 binder it
+//@| for (name, (span, ty)) in fields.iter()
             invariant self.copy_inv(old(self), seen@, ts0, sq, new_ty, old_ty), fields_in_range(copied, self.types@.len() as int), vstd::std_specs::btree::key_obeys_cmp_spec::<String>(), //# C02,C07 inner_copy.loop6.aux1
                 forall|j: int| 0 <= j < it.seq().len() ==> fields@.contains_pair(*(#[trigger] it.seq()[j]).0, *it.seq()[j].1), //# - inner_copy.loop6.aux2
                 forall|name: String| #[trigger] copied@.dom().contains(name) <==> (exists|j: int| 0 <= j < it.index@ && *(#[trigger] it.seq()[j]).0 == name), //# C05 inner_copy.loop6.the_copy_has_the_names_visited_so_far
@@ -1983,9 +1989,11 @@ impl TypeChecker {
             let ghost l7 = self.types@.len();
 //@   endghost
 //@   loop 7
+//@| for ty in args.iter()
             invariant self.copy_inv(old(self), seen@, ts0, sq, new_ty, old_ty), ids_below(copied@, self.types@.len() as int), self.types@.len() >= l7, //# C02,C07 inner_copy.loop7.aux1
 //@   endloop
 //@   loop 8 binder it
+//@| for (name, (span, ty)) in variants.iter()
             invariant self.copy_inv(old(self), seen@, ts0, sq, new_ty, old_ty), fields_in_range(copied, self.types@.len() as int), vstd::std_specs::btree::key_obeys_cmp_spec::<String>(), //# C02,C07 inner_copy.loop8.aux1
                 forall|j: int| 0 <= j < it.seq().len() ==> variants@.contains_pair(*(#[trigger] it.seq()[j]).0, *it.seq()[j].1), //# - inner_copy.loop8.aux2
                 forall|name: String| #[trigger] copied@.dom().contains(name) <==> (exists|j: int| 0 <= j < it.index@ && *(#[trigger] it.seq()[j]).0 == name), //# C05 inner_copy.loop8.the_copy_has_the_names_visited_so_far
@@ -1997,6 +2005,7 @@ impl TypeChecker {
             let ghost l9 = self.types@.len();
 //@   endghost
 //@   loop 9
+//@| for ty in args.iter()
             invariant self.copy_inv(old(self), seen@, ts0, sq, new_ty, old_ty), ids_below(copied@, self.types@.len() as int), self.types@.len() >= l9, //# C02,C07 inner_copy.loop9.aux1
 //@   endloop
 //@ end
